@@ -335,6 +335,9 @@ var codeShapes = []string{
 	`<script>var x = 1;</scr{{if .F}}{{end}}ipt><img src="x" onerror="1//</script>@@">`, `<style>p{}<{{if .F}}{{end}}/style><iframe srcdoc="</style>@@"></iframe>`,
 	`{{define "gt"}}>{{end}}<script>var x = 1;</script{{template "gt"}}<img src="x" onerror="1//</script>@@">`, `<script>a</scr{{if .C}}ipt>{{else}}ipt>{{end}}<img src="x" onerror="1//</script>@@">`,
 	`<svg><style><img src="x" onerror="1//</style>@@"></svg>`, `<svg><script><img src="x" onerror="1//</script>@@"></svg>`, `<math><style><p><iframe srcdoc="</style>@@"></iframe></math>`, `<svg><style><!-- "</style>@@ --></svg>`,
+	// (eighth round) the end tag spread over three nodes; nested / mismatched svg and math; a split svg name
+	`<script>x<{{if .F}}{{end}}/{{if .F}}{{end}}script><img src="x" onerror="1//</script>@@">`, `{{define "e"}}ipt{{end}}<script>x</scr{{template "e"}}><img src="x" onerror="1//</script>@@">`,
+	`<svg><svg></svg><style><img src="x" onerror="1//</style>@@"></svg>`, `<math></svg><style><img src="x" onerror="1//</style>@@"></math>`, `<sv{{if .F}}{{end}}g><style><img src="x" onerror="1//</style>@@"></svg>`,
 	`<img{{if .F}}{{end}}x="</a tabindex=1 autofocus onfocus="1>/*<b>*/@@">`, `<p>a</p{{if .F}}{{end}}x="><script>/*">*/@@</script>`,
 	// text after a template node continues the name of an END tag (F-endtagname)
 	`<bdi>a</b{{if .C}}data-x="@@"{{end}}di>`, `<button {{range .L2}}data-x="@@"></b{{end}}utton>`, `<bdi>a</b{{if .F}}z{{end}}data-x="@@">`,
